@@ -291,6 +291,22 @@ func genC03(r *rand.Rand, tier string, env *Env) []Case {
 		}
 		cases = append(cases, c)
 	}
+	// definitions whose substitution creates reference syntax ("computed names"): the only place where the visiting
+	// order of expandDefinitions decides the result (D28); the names are chosen so that definition order, sorted
+	// order and reverse sorted order all differ
+	emptyCfg := [][]byte{{}, {}, {}, {}, {}, {}}
+	for _, prog := range []string{
+		"##!> define a {\n##!> define b Z\n{{a}}{b}}\nfoo\n",
+		"##!> define zz {{\n##!> define k Q\n##!> define m R\n{{zz}}k}}|{{zz}}m}}\n",
+		"##!> define b }\n##!> define a X\n##!> define c Y\n{{a{{b}}}|{{c{{b}}}\n",
+		"##!> define p {{q\n##!> define q r}}\n##!> define r W\n##!> define qr}}x V\n{{p}}{{q}}x\n",
+		"##!> define n1 {{n\n##!> define n2 2}}\n##!> define n U\n##!> define n2 T\nx{{n1}}2}}y{{n1}}{{n2}}\n",
+		"##!> define outer {{in{{s}}}}\n##!> define s ner\n##!> define inner I\n##!> define in J\n{{outer}}\n",
+	} {
+		args := append(append([][]byte{}, emptyCfg...), []byte(prog))
+		cases = append(cases, Case{Kind: "computed-name", Ops: []Op{{"parse.run", args[6:]}, {"gen.run", args}},
+			Oracles: []Op{{"c03.repeat", append([][]byte{bytes.Repeat([]byte{'x'}, 3*reps)}, args...)}, {"c03.cli", append([][]byte{bytes.Repeat([]byte{'x'}, 12)}, args...)}}})
+	}
 	// the configuration file in spellings whose loading could depend on an order (keys differing only in case, unknown keys)
 	nY := 12
 	if tier == "thorough" {
